@@ -191,6 +191,51 @@ def c06(run):
     hs += gen_histories(rng, "valid", 60 if quick else 600, 80 if quick else 1000, 8 if quick else 20)
     seq_project(run, "P-seq[C06]", hs, step_oracles=(oracles.verdict_exact,),
                 theorems=["verdict_iff", "invalid_store_pure", "del_invalid_guard"], kernel_sample=5 if quick else 30)
+    c06_repeated(run)
+
+
+def c06_repeated(run):
+    """search: the SAME ObjectMetadata object validated repeatedly (a caller retrying), every algorithm, both letter cases:
+    the verdict depends on the content and the arguments of THAT call only"""
+    import hashlib
+    import os
+    import shutil
+    from universe import scratch_root, exn_name, DEFAULT_NS
+    import hashstore.filehashstore as fhs
+    rng = random.Random(run.seed + 3)
+    base = scratch_root()
+    algos = ["md5", "sha1", "sha256", "sha384", "sha512", "sha224", "sha3_224", "sha3_256", "sha3_384", "sha3_512", "blake2b", "blake2s"]
+    try:
+        hs = fhs.FileHashStore({"store_path": os.path.join(base, "s"), "store_depth": 3, "store_width": 2, "store_algorithm": "SHA-256",
+                                "store_metadata_namespace": DEFAULT_NS})
+        for k, alg in enumerate(algos if run.tier != "quick" else rng.sample(algos, 6)):
+            data = os.urandom(200 + k)
+            src = os.path.join(base, "d%d" % k)
+            with open(src, "wb") as fh:
+                fh.write(data)
+            om = hs.store_object(None, src)
+            good = hashlib.new(alg, data).hexdigest()
+            seq_ = []
+            for rep, (chk, size, valid) in enumerate([(good.upper(), len(data), True), (good, len(data), True), (good.upper(), None, True),
+                                                      (good, len(data) + 1, False)]):
+                try:
+                    hs.delete_if_invalid_object(om, chk, rng.choice([alg, alg.upper()]), size)
+                    out = "valid"
+                except Exception as e:  # noqa: BLE001
+                    out = exn_name(e)
+                seq_.append((("upper" if chk != good else "lower"), size is not None and size != len(data), out))
+                present = os.path.isfile(os.path.join(base, "s", "objects", om.cid[:2], om.cid[2:4], om.cid[4:6], om.cid[6:]))
+                run.case("search-repeated-validation", (alg, rep), sample={"search": "same ObjectMetadata validated repeatedly", "algorithm": alg, "calls": seq_})
+                if valid and (out != "valid" or not present):
+                    run.violation({"kind": "repeated-validation", "algorithm": alg},
+                                  "delete_if_invalid_object call %d on one ObjectMetadata with a CORRECT %s-case %s checksum -> %s%s (calls so far: %s)" % (
+                                      rep + 1, "upper" if chk != good else "lower", alg, out, "" if present else ", object deleted", seq_),
+                                  {"algorithm": alg, "calls": seq_})
+                    break
+                if not valid and out != "NonMatchingObjSize":
+                    run.violation({"kind": "repeated-validation", "algorithm": alg}, "wrong size judged %s" % out, {"algorithm": alg, "calls": seq_})
+    finally:
+        shutil.rmtree(base, ignore_errors=True)
 
 
 def c11(run):
@@ -217,6 +262,32 @@ def c11(run):
         hs.append(seq.random_history(rng, A, rng.randint(3, 12 if quick else 30)))
     seq_project(run, "P-seq[C11]", hs, u=u, step_oracles=(oracles.MetaTracker,),
                 theorems=["C11_meta_roundtrip", "C11_meta_frame", "C11_delete_all_own_only"], kernel_sample=5 if quick else 30)
+    # pids whose digests share the first shard directories (their metadata directories are neighbours): deleting for one
+    # must leave the other's documents alone
+    import hashlib
+    def shares(n_tokens):
+        seen = {}
+        k = 0
+        while True:
+            name = "neighbour-%d" % k
+            key = hashlib.sha256(name.encode()).hexdigest()[: 2 * n_tokens]
+            if key in seen:
+                return seen[key], name
+            seen[key] = name
+            k += 1
+    a1, b1 = shares(1)
+    a2, b2 = shares(2)
+    for (pa, pb) in ((a1, b1), (a2, b2)):
+        u2 = Universe(pids={1: pa, 2: pb, 3: "pid-3"}, fmts={0: DEFAULT_NS, 1: "c", 2: "bc", 3: ""})
+        hs2 = [[{"op": "sm", "p": 1, "f": 0, "v": 1, "n": 1}, {"op": "sm", "p": 2, "f": 0, "v": 2, "n": 2}, {"op": "sm", "p": 2, "f": 1, "v": 1, "n": 1},
+                {"op": "dm", "p": 1, "f": None}, {"op": "rm", "p": 2, "f": 0}, {"op": "rm", "p": 2, "f": 1}],
+               [{"op": "sm", "p": 1, "f": 1, "v": 1, "n": 1}, {"op": "sm", "p": 2, "f": 1, "v": 2, "n": 1}, {"op": "dm", "p": 1, "f": 1}, {"op": "rm", "p": 2, "f": 1}],
+               [{"op": "so", "p": 1, "b": 7, "n": 1}, {"op": "sm", "p": 1, "f": 0, "v": 1, "n": 1}, {"op": "sm", "p": 2, "f": 0, "v": 2, "n": 1},
+                {"op": "del", "p": 1}, {"op": "rm", "p": 2, "f": 0}]]
+        for _ in range(10 if quick else 100):
+            hs2.append(seq.random_history(rng, A, rng.randint(3, 10)))
+        seq_project(run, "P-seq[C11]/neighbour-pids", hs2, u=u2, step_oracles=(oracles.MetaTracker,),
+                    theorems=["C11_meta_frame", "C11_delete_all_own_only"])
 
 
 CHECKS = {"C05": c05, "C03": c03, "C04": c04, "C06": c06, "C11": c11}
